@@ -63,7 +63,7 @@ def evaluate(F, fn, me, pop, ke, reactants, products, buffer, fields_mol):
     def bvm(interp, env, f, args):
         g = (f.get("gargs") or [""])[0]
         if g == CRO + "EnergyBuffer":
-            return Ref(home_buf, [])
+            return Ref(home_buf, [], frame="root")
         if g.startswith(CRO + "ChemicalReaction<"):
             return Vec("reaction", borrowed=True)
         return TOP
